@@ -12,7 +12,7 @@
    semantics answers SigNormal (behind the statement), SigBreak (at that END_LOOP) or SigReturn (behind the call). *)
 From Coq Require Import ZArith String List Bool Lia.
 From Bardolph Require Import Gen.Codes Lang.Value Lang.Instr Lang.Loader Lang.World Lang.Units0 Lang.Regs Lang.Devices Lang.Builtins
-  Lang.Machine Lang.Syntax Lang.Sem Lang.CodeGen Lang.Scope Lang.ExprCompile Lang.Simulation Lang.Simulation2 Lang.CallFrames Lang.LoopVars Lang.RangeLoop Lang.CountWith Lang.LightScan Lang.LightLoop.
+  Lang.Machine Lang.Syntax Lang.Sem Lang.CodeGen Lang.Scope Lang.ExprCompile Lang.Simulation Lang.Simulation2 Lang.CallFrames Lang.LoopVars Lang.RangeLoop Lang.CountWith Lang.LightScan Lang.LightLoop Lang.CallValue.
 Open Scope string_scope.
 Open Scope list_scope.
 Import ListNotations.
@@ -41,6 +41,10 @@ Inductive SimpleB : bool -> bool -> stmt -> Prop :=
 | B_return0 inl : SimpleB inl true (SReturn None)
 | B_call inl inr f args b d : builtin_params f builtin_table = None -> find_rdef rt f = Some d ->
     plain_args args (rd_params d) = true -> SimpleB inl inr (SCall f args b)
+| B_calluse inl inr u f args d : builtin_params f builtin_table = None -> find_rdef rt f = Some d ->
+    plain_args args (rd_params d) = true -> must_return (rd_body d) = true -> use_ok u = true -> SimpleB inl inr (use_stmt u (RCall f args))
+| B_callret inl f args d : builtin_params f builtin_table = None -> find_rdef rt f = Some d ->
+    plain_args args (rd_params d) = true -> must_return (rd_body d) = true -> SimpleB inl true (SReturn (Some (RCall f args)))
 | B_if inl inr c a : plain_rval mt c = true -> SimpleB inl inr a -> SimpleB inl inr (SIf c a None)
 | B_ifelse inl inr c a b : plain_rval mt c = true -> SimpleB inl inr a -> SimpleB inl inr b -> SimpleB inl inr (SIf c a (Some b))
 | B_block inl inr l : SimpleBL inl inr l -> SimpleB inl inr (SBlock l)
@@ -122,6 +126,36 @@ Proof.
   generalize (rd_params d). induction args as [|a r IH]; intros ps; destruct ps as [|p ps]; cbn [map c_args]; try reflexivity.
   rewrite IH. reflexivity.
 Qed.
+Definition call_code (d : routine_def) (f : string) (args : list rval) : program :=
+  [I0 OC_CTX] ++ c_args (rd_params d) args ++ [I1 OC_JSR (PStr f); I0 OC_END_CTX].
+(* a call in the place of a value: the same code, then the value is taken from RESULT *)
+Lemma c_rcall f args d dd : builtin_params f builtin_table = None -> find_rdef rt f = Some d ->
+  c_rval rt mt (RCall f args) dd = call_code d f args ++
+    match dd with DPush => [I1 OC_PUSH (PReg R_RESULT)] | DReg R_RESULT => [] | _ => [I2 OC_MOVE (PReg R_RESULT) (dest_param dd)] end.
+Proof.
+  intros Hb Hf. cbn [c_rval]. unfold call_code, mk_call, params_of_routine. rewrite Hb, Hf. f_equal. f_equal. f_equal.
+  generalize (rd_params d). induction args as [|a r IH]; intros ps; destruct ps as [|p ps]; cbn [c_args]; try reflexivity.
+  rewrite IH. reflexivity.
+Qed.
+Lemma c_use after u f args d : builtin_params f builtin_table = None -> find_rdef rt f = Some d -> use_ok u = true ->
+  c_stmt rt mt false after (use_stmt u (RCall f args)) = call_code d f args ++ use_tail u.
+Proof.
+  intros Hb Hf Hok. destruct u as [y|r|nl]; cbn [use_stmt use_tail use_ok] in *.
+  - change (c_stmt rt mt false after (SAssign y (RCall f args))) with (c_rval rt mt (RCall f args) (DVar y)). rewrite (c_rcall f args d _ Hb Hf). reflexivity.
+  - change (c_stmt rt mt false after (SReg r (RCall f args))) with (c_rval rt mt (RCall f args) (DReg r)). rewrite (c_rcall f args d _ Hb Hf).
+    destruct r; try discriminate; reflexivity.
+  - destruct nl.
+    + change (c_stmt rt mt false after (SPrintln (Some (RCall f args)))) with
+        (c_rval rt mt (RCall f args) (DReg R_RESULT) ++ [I2 OC_OUT (PIoOp IO_REGISTER) (PReg R_RESULT); I1 OC_OUT (PIoOp IO_PRINT); I1 OC_OUT (PIoOp IO_PRINT_END)]).
+      rewrite (c_rcall f args d _ Hb Hf), app_nil_r. reflexivity.
+    + change (c_stmt rt mt false after (SPrint (Some (RCall f args)))) with
+        (c_rval rt mt (RCall f args) (DReg R_RESULT) ++ [I2 OC_OUT (PIoOp IO_REGISTER) (PReg R_RESULT); I1 OC_OUT (PIoOp IO_PRINT)]).
+      rewrite (c_rcall f args d _ Hb Hf), app_nil_r. reflexivity.
+Qed.
+Lemma c_retcall after f args d : builtin_params f builtin_table = None -> find_rdef rt f = Some d ->
+  c_stmt rt mt false after (SReturn (Some (RCall f args))) = call_code d f args ++ [I0 OC_RETURN].
+Proof. intros Hb Hf. rewrite c_return, (c_rcall f args d _ Hb Hf), app_nil_r. reflexivity. Qed.
+
 Lemma exec_call f ss g args b : Sem.exec rt mt (S f) false ss (SCall g args b) = (let* (_, s1) := call rt mt f false ss g args in ROk SigNormal s1).
 Proof. reflexivity. Qed.
 
@@ -133,6 +167,9 @@ Proof.
   rewrite !forallb_app, (c_rval_no_routine rt mt a (DReg R_RESULT) Ha (plain_ok_result mt a Ha)), (IH ps Hr). reflexivity.
 Qed.
 
+Lemma call_code_no_routine d f args : plain_args args (rd_params d) = true -> forallb not_routine (call_code d f args) = true.
+Proof. intros Ha. unfold call_code. rewrite !forallb_app, (c_args_no_routine args _ Ha). reflexivity. Qed.
+
 Lemma simpleB_no_routine :
   (forall inl inr st, SimpleB inl inr st -> forall after, forallb not_routine (c_stmt rt mt false after st) = true) /\
   (forall inl inr l, SimpleBL inl inr l -> forall after, forallb not_routine (c_stmt rt mt false after (SBlock l)) = true).
@@ -143,6 +180,8 @@ Proof.
   - intros inl v Hv after. rewrite c_return, forallb_app, (c_rval_no_routine rt mt v (DReg R_RESULT) Hv (plain_ok_result mt v Hv)). reflexivity.
   - intros inl after. reflexivity.
   - intros inl inr f args b d Hb Hf Ha after. rewrite (c_callB after f args b d Hb Hf), !forallb_app, (c_args_no_routine args _ Ha). reflexivity.
+  - intros inl inr u f args d Hb Hf Ha _ Hok after. rewrite (c_use after u f args d Hb Hf Hok), forallb_app, (call_code_no_routine d f args Ha), use_tail_no_routine. reflexivity.
+  - intros inl f args d Hb Hf Ha _ after. rewrite (c_retcall after f args d Hb Hf), forallb_app, (call_code_no_routine d f args Ha). reflexivity.
   - intros inl inr c a Hc _ IHa after. rewrite c_if1_after, !forallb_app, (IHa after), (c_rval_no_routine rt mt c (DReg R_RESULT) Hc (plain_ok_result mt c Hc)). reflexivity.
   - intros inl inr c a b Hc _ IHa _ IHb after. rewrite c_if2_after, !forallb_app, (IHa _), (IHb after), (c_rval_no_routine rt mt c (DReg R_RESULT) Hc (plain_ok_result mt c Hc)). reflexivity.
   - intros inl inr l _ IH after. exact (IH after).
@@ -167,15 +206,15 @@ Definition ret_state (ss' : sstate) (s' : mstate) : Prop :=
   agree (m_regs s') (s_regs ss') /\ regs_full (s_regs ss') /\ m_globals s' = s_globals ss' /\ m_world s' = s_world ss' /\ m_unnamed s' = [] /\
   rf_get (m_regs s') R_DISC_FORWARD = Some (VBool false).
 
-Definition returned (im : image) (ss : sstate) (s : mstate) (ss' : sstate) : Prop :=
+Definition returned (im : image) (ss : sstate) (s : mstate) (ss' : sstate) (v : value) : Prop :=
   exists ret F, call_tail (m_frames s) = Some (ret, F) /\
-  exists n s' evs, esteps n im s = Some (s', evs) /\ ret_state ss' s' /\ m_pc s' = ret + 1 /\ m_frames s' = F /\ m_stack s' = ret_stack (m_frames s) (m_stack s) /\
+  exists n s' evs, esteps n im s = Some (s', evs) /\ (ret_state ss' s' /\ rf_get (m_regs s') R_RESULT = Some v) /\ m_pc s' = ret + 1 /\ m_frames s' = F /\ m_stack s' = ret_stack (m_frames s) (m_stack s) /\
                    rev (s_trace ss') = rev (s_trace ss) ++ evs.
 
 Definition outcome (inr : bool) (after : option Z) (im : image) (ss : sstate) (s : mstate) (sig : signal) (ss' : sstate) (code : program) : Prop :=
   (sig = SigNormal /\ sim_to im ss s ss' (m_pc s + zlength code)) \/
   (sig = SigBreak /\ exists a, after = Some a /\ sim_to im ss s ss' (m_pc s + zlength code + a)) \/
-  (inr = true /\ exists v, sig = SigReturn v /\ returned im ss s ss').
+  (inr = true /\ exists v, sig = SigReturn v /\ returned im ss s ss' v).
 
 Definition in_loop_ok (inl : bool) (after : option Z) : Prop := inl = true -> exists a, after = Some a.
 Definition in_ret_ok (inr : bool) (fs : frames) : Prop := inr = true -> exists ret F, call_tail fs = Some (ret, F).
@@ -193,10 +232,10 @@ Definition routines_loaded (im : image) : Prop :=
                  code_at im addr (c_stmt rt mt false None (rd_body d) ++ [I1 OC_END (PStr f)]).
 
 (* ---- composing runs ---- *)
-Lemma returned_rebase im ss s sa s1 n1 e1 ss' :
+Lemma returned_rebase im ss s sa s1 n1 e1 ss' {v} :
   esteps n1 im s = Some (s1, e1) -> call_tail (m_frames s1) = call_tail (m_frames s) ->
   ret_stack (m_frames s1) (m_stack s1) = ret_stack (m_frames s) (m_stack s) ->
-  rev (s_trace sa) = rev (s_trace ss) ++ e1 -> returned im sa s1 ss' -> returned im ss s ss'.
+  rev (s_trace sa) = rev (s_trace ss) ++ e1 -> returned im sa s1 ss' v -> returned im ss s ss' v.
 Proof.
   intros E1 Hct Hsk Ht1 (ret & F & Hc & n & s2 & e2 & E2 & Hr2 & Hpc2 & Hf2 & Hst2 & Ht2).
   exists ret, F. split; [rewrite <- Hct; exact Hc|]. exists (n1 + n)%nat, s2, (e1 ++ e2). split; [eapply esteps_app; eassumption|].
@@ -352,6 +391,103 @@ Proof.
   rewrite E, Hb, Hf. reflexivity.
 Qed.
 
+(* what the theorem, at a smaller budget, says of the bodies of the routines *)
+Definition body_sim (m : nat) : Prop :=
+  forall f d, find_rdef rt f = Some d ->
+  forall im ss s sig ss', routines_loaded im -> in_ret_ok true (m_frames s) -> in_depth_ok true s -> sim ss s ->
+  code_at im (m_pc s) (c_stmt rt mt false None (rd_body d)) ->
+  Sem.exec rt mt m false ss (rd_body d) = ROk sig ss' -> outcome true None im ss s sig ss' (c_stmt rt mt false None (rd_body d)).
+
+(* the code of a call runs the routine and comes back behind its END_CTX; when the routine left through a return, RESULT holds
+   the value of the call *)
+Lemma call_runs fuel : body_sim fuel -> forall f args d, builtin_params f builtin_table = None -> find_rdef rt f = Some d ->
+  plain_args args (rd_params d) = true ->
+  forall im ss s x ss', routines_loaded im -> sim ss s -> code_at im (m_pc s) (call_code d f args) ->
+  call rt mt (S fuel) false ss f args = ROk x ss' ->
+  exists n s' evs, esteps n im s = Some (s', evs) /\ sim ss' s' /\ m_pc s' = m_pc s + zlength (call_code d f args) /\
+                   (m_stack s', fr s') = (m_stack s, fr s) /\ rev (s_trace ss') = rev (s_trace ss) ++ evs /\
+                   (must_return (rd_body d) = true -> rf_get (m_regs s') R_RESULT = Some x).
+Proof.
+  intros Hbody f args d Hb Hf Hpl im ss s x ss' Hload Hsim Hc He.
+  rewrite (call_user fuel ss f args d Hb Hf) in He. unfold call_code in Hc |- *.
+  set (ps := rd_params d) in *. set (CA := c_args ps args) in *. set (kA := zlength CA) in *.
+  apply code_at_app in Hc. destruct Hc as [Hctx Hc]. cbn [code_at] in Hctx. destruct Hctx as [Hfc _]. rewrite zlength1 in Hc.
+  apply code_at_app in Hc. destruct Hc as [HcA Hc]. fold kA in Hc. cbn [code_at] in Hc. destruct Hc as [Hfj [Hfe _]].
+  destruct (eval_args rt mt fuel false ss args) as [vs sa|e sa|sa] eqn:Ea; cbn [sbind] in He; try discriminate.
+  (* CTX *)
+  set (F := m_frames s) in *.
+  set (s1 := advance (with_frames s (FCall [] false None :: F))).
+  assert (E1 : esteps 1 im s = Some (s1, [])) by (apply (estep1 im s _ _ _ Hfc); reflexivity).
+  assert (Hs1 : simr ss s1).
+  { destruct Hsim as [Hr Hfu Hg Hv Hst Hw Hu Hdf]. constructor; cbn [s1 advance with_pc with_frames with_vars m_regs m_globals m_frames m_world m_unnamed vars_of]; assumption. }
+  (* the arguments *)
+  assert (HcA1 : code_at im (m_pc s1) CA) by exact HcA.
+  destruct (args_run args ps Hpl fuel im ss s1 [] F vs sa Hs1 eq_refl HcA1 Ea) as [Hsa (n2 & s2 & p1 & E2 & Hs2 & Hpc2 & Hfr2 & Hst2 & Hbind)]. subst sa.
+  fold CA in Hpc2. fold kA in Hpc2. rewrite Hbind in He.
+  assert (Hpc2' : m_pc s2 = m_pc s + 1 + kA) by (rewrite Hpc2; reflexivity).
+  (* JSR *)
+  destruct (Hload f d Hf) as (addr & rr & Hfind & Hbc).
+  apply code_at_app in Hbc. destruct Hbc as [Hbcode Hbend]. cbn [code_at] in Hbend. destruct Hbend as [Hfend _].
+  set (ret := m_pc s2 + 1).
+  set (s3 := with_pc (with_frames s2 (FCall p1 true (Some ret) :: F)) addr).
+  assert (E3 : esteps 1 im s2 = Some (s3, [])).
+  { assert (Hfj' : fetch im (m_pc s2) = Some (I1 OC_JSR (PStr f))) by (rewrite Hpc2'; exact Hfj).
+    apply (estep1 im s2 _ _ _ Hfj'). cbn [Machine.exec i_op i_p0 I1]. rewrite Hfr2, (not_builtin f Hb), Hfind. reflexivity. }
+  set (ssb := s_with_locals ss (Some p1)) in *.
+  assert (Hs3 : sim ssb s3).
+  { destruct Hs2 as [Hr Hfu Hg Hv Hw Hu Hdf]. constructor; cbn [s3 ssb with_pc with_frames with_vars s_with_locals m_regs m_globals m_frames m_world m_unnamed s_regs s_globals s_locals s_world vars_of settled]; try assumption; reflexivity. }
+  assert (Hct3 : call_tail (m_frames s3) = Some (ret, F)) by reflexivity.
+  assert (Hd3 : in_depth_ok true s3) by (intros _; exact I).
+  assert (Hin3 : in_loop_ok false None) by (intros H; discriminate).
+  assert (Hir3 : in_ret_ok true (m_frames s3)) by (intros _; exists ret, F; exact Hct3).
+  assert (Hbcode3 : code_at im (m_pc s3) (c_stmt rt mt false None (rd_body d))) by exact Hbcode.
+  assert (Hfe' : fetch im ret = Some (I0 OC_END_CTX)).
+  { unfold ret. rewrite Hpc2'. replace (m_pc s + 1 + kA + 1) with (m_pc s + 1 + kA + Z.of_nat 1) by lia. exact Hfe. }
+  assert (Hlen : zlength ([I0 OC_CTX] ++ CA ++ [I1 OC_JSR (PStr f); I0 OC_END_CTX]) = 1 + kA + 2).
+  { unfold zlength. rewrite !app_length, !Nat2Z.inj_add. cbn [length]. unfold kA, zlength. lia. }
+  assert (Hstk : m_stack s3 = m_stack s) by exact Hst2.
+  assert (E13 : esteps (1 + (n2 + 1)) im s = Some (s3, [] ++ ([] ++ []))) by (eapply esteps_app; [exact E1|eapply esteps_app; [exact E2|exact E3]]).
+  destruct (Sem.exec rt mt fuel false ssb (rd_body d)) as [sgb sb|eb sb|sb] eqn:Eb; try discriminate.
+  set (sfin := s_with_locals sb (s_locals ss)) in *.
+  assert (Hss' : ss' = sfin) by (destruct sgb; injection He as H1 H2; congruence).
+  subst ss'.
+  rewrite Hlen.
+  destruct (Hbody f d Hf im ssb s3 sgb sb Hload Hir3 Hd3 Hs3 Hbcode3 Eb)
+    as [[Hsgb (n4 & s4 & e4 & E4 & Hs4 & Hpc4 & Hst4 & Ht4)]|[[Hsgb (a' & Ha' & _)]|[_ [v [Hsgb (ret' & F' & Hct' & n4 & s4 & e4 & E4 & Hr4 & Hpc4 & Hfr4 & Hst4 & Ht4)]]]]].
+  + (* the body runs into END f: back to the END_CTX of the call *)
+    destruct (fr_eq_facts s4 s3 Hst4) as [Hsk4 [Hct4 [Hdp4 Hrs4]]].
+    assert (Hrs4' : ret_stack (m_frames s4) (m_stack s4) = m_stack s4) by (rewrite Hrs4, Hsk4; reflexivity).
+    rewrite Hct3 in Hct4.
+    set (s5 := with_pc (with_stack (with_frames s4 F) (m_stack s4)) ret).
+    assert (E5 : esteps 1 im s4 = Some (s5, [])).
+    { assert (Hfend' : fetch im (m_pc s4) = Some (I1 OC_END (PStr f))) by (rewrite Hpc4; exact Hfend).
+      apply (estep1 im s4 _ _ _ Hfend'). cbn [Machine.exec i_op i_p0 I1]. rewrite (do_return_steps s4 ret F Hct4), Hrs4'. reflexivity. }
+    set (s6 := advance s5).
+    assert (E6 : esteps 1 im s5 = Some (s6, [])) by (apply (estep1 im s5 _ _ _ Hfe'); reflexivity).
+    exists ((1 + (n2 + 1)) + (n4 + (1 + 1)))%nat, s6, (([] ++ ([] ++ [])) ++ (e4 ++ ([] ++ []))).
+    split; [eapply esteps_app; [exact E13|eapply esteps_app; [exact E4|eapply esteps_app; [exact E5|exact E6]]]|].
+    split.
+    { destruct Hs4 as [Hr Hfu Hg Hv Hse Hw Hu Hdf]. destruct Hsim as [_ _ _ Hv0 Hst0 _ _ _].
+      constructor; cbn [s6 s5 sfin advance with_pc with_stack with_frames with_vars s_with_locals m_regs m_globals m_frames m_world m_unnamed s_regs s_globals s_locals s_world]; assumption. }
+    split; [change (m_pc s6) with (ret + 1); unfold ret; rewrite Hpc2'; lia|].
+    split; [change (m_stack s6, fr s6) with (m_stack s4, erase F); rewrite Hsk4, Hstk; reflexivity|].
+    split; [cbn [app]; rewrite !app_nil_r; exact Ht4|].
+    intros Hmr. exfalso. subst sgb. exact (proj1 (must_return_sound rt mt fuel) _ _ _ _ Hmr Eb eq_refl).
+  + discriminate.
+  + (* the body returns: the machine is behind the END_CTX already *)
+    rewrite Hct3 in Hct'. injection Hct' as Hret' HF'. subst ret' F'.
+    exists ((1 + (n2 + 1)) + n4)%nat, s4, (([] ++ ([] ++ [])) ++ e4).
+    split; [eapply esteps_app; [exact E13|exact E4]|].
+    destruct Hr4 as [(Hr & Hfu & Hg & Hw & Hu & Hdf) Hres4].
+    split.
+    { destruct Hsim as [_ _ _ Hv0 Hst0 _ _ _].
+      constructor; cbn [sfin s_with_locals s_regs s_globals s_locals s_world]; try assumption; rewrite Hfr4; assumption. }
+    split; [rewrite Hpc4; unfold ret; rewrite Hpc2'; lia|].
+    split; [unfold fr; rewrite Hfr4, Hst4, Hstk; reflexivity|].
+    split; [cbn [app]; exact Ht4|].
+    intros _. subst sgb. injection He as Hx. subst x. exact Hres4.
+Qed.
+
 Theorem simpleB_simulation_upto : bodies_ok -> forall fuel0 : nat,
   (forall inl inr st, SimpleB inl inr st ->
      forall after im ss s sig ss' fuel, (fuel <= fuel0)%nat -> routines_loaded im -> in_loop_ok inl after -> in_ret_ok inr (m_frames s) ->
@@ -363,6 +499,9 @@ Theorem simpleB_simulation_upto : bodies_ok -> forall fuel0 : nat,
      exec_seq rt mt fuel false ss l = ROk sig ss' -> outcome inr after im ss s sig ss' (c_stmt rt mt false after (SBlock l))).
 Proof.
   intros Hbodies fuel0. induction fuel0 as [fuel0 IHfuel] using (well_founded_induction lt_wf).
+  assert (Hbs : forall m, (m < fuel0)%nat -> body_sim m).
+  { intros m Hm f d Hf im ss s sig ss' Hload Hir Hd Hsim Hc He.
+    exact (proj1 (IHfuel m Hm) false true (rd_body d) (Hbodies f d Hf) None im ss s sig ss' m (le_n _) Hload (fun H => False_ind _ (Bool.diff_false_true H)) Hir Hd Hsim Hc He). }
   apply SimpleB_mutind.
   - (* a statement without break: Simulation2 *)
     intros inl inr st Hst after im ss s sig ss' fuel Hle _ _ _ _ Hsim Hc He.
@@ -392,7 +531,7 @@ Proof.
     { apply (estep1 im s1 _ _ _ Hfr). cbn [Machine.exec i_op I0]. rewrite (do_return_steps s1 ret F Hct). reflexivity. }
     right. right. split; [reflexivity|]. exists x. split; [reflexivity|]. exists ret, F. split; [exact Hct|].
     exists (n + 1)%nat, s2, ([] ++ []). split; [eapply esteps_app; eassumption|].
-    split; [destruct Hs1 as [Hr1 Hf1 Hg1 Hv1 Hst1 Hw1 Hu1]; repeat split; assumption|].
+    split; [split; [destruct Hs1 as [Hr1 Hf1 Hg1 Hv1 Hst1 Hw1 Hu1]; repeat split; assumption|apply rf_get_set_same]|].
     split; [reflexivity|]. split; [reflexivity|]. split; [reflexivity|]. rewrite app_nil_r. reflexivity.
   - (* return without a value *)
     intros inl after im ss s sig ss' fuel Hle _ _ Hir Hd Hsim Hc He.
@@ -410,86 +549,43 @@ Proof.
     { apply (estep1 im s1 _ _ _ Hf2). cbn [Machine.exec i_op I0]. rewrite (do_return_steps s1 ret F Hct). reflexivity. }
     right. right. split; [reflexivity|]. exists VNone. split; [reflexivity|]. exists ret, F. split; [exact Hct|].
     exists (1 + 1)%nat, s2, ([] ++ []). split; [eapply esteps_app; eassumption|].
-    split; [destruct Hs1 as [Hr1 Hf1' Hg1 Hv1 Hst1 Hw1 Hu1]; repeat split; assumption|].
+    split; [split; [destruct Hs1 as [Hr1 Hf1' Hg1 Hv1 Hst1 Hw1 Hu1]; repeat split; assumption|apply rf_get_set_same]|].
     split; [reflexivity|]. split; [reflexivity|]. split; [reflexivity|]. rewrite app_nil_r. reflexivity.
   - (* call of a user routine *)
-    intros inl inr f args b d Hb Hf Hpl after im ss s sig ss' fuel Hle Hload _ _ Hd Hsim Hc He.
-    destruct fuel as [|[|fuel]]; try discriminate. rewrite exec_call, (call_user fuel ss f args d Hb Hf) in He.
-    rewrite (c_callB after f args b d Hb Hf) in *.
-    set (ps := rd_params d) in *. set (CA := c_args ps args) in *. set (kA := zlength CA) in *.
-    apply code_at_app in Hc. destruct Hc as [Hctx Hc]. cbn [code_at] in Hctx. destruct Hctx as [Hfc _]. rewrite zlength1 in Hc.
-    apply code_at_app in Hc. destruct Hc as [HcA Hc]. fold kA in Hc. cbn [code_at] in Hc. destruct Hc as [Hfj [Hfe _]].
-    destruct (eval_args rt mt fuel false ss args) as [vs sa|e sa|sa] eqn:Ea; cbn [sbind] in He; try discriminate.
-    (* CTX *)
-    set (F := m_frames s) in *.
-    set (s1 := advance (with_frames s (FCall [] false None :: F))).
-    assert (E1 : esteps 1 im s = Some (s1, [])) by (apply (estep1 im s _ _ _ Hfc); reflexivity).
-    assert (Hs1 : simr ss s1).
-    { destruct Hsim as [Hr Hfu Hg Hv Hst Hw Hu Hdf]. constructor; cbn [s1 advance with_pc with_frames with_vars m_regs m_globals m_frames m_world m_unnamed vars_of]; assumption. }
-    (* the arguments *)
-    assert (HcA1 : code_at im (m_pc s1) CA) by exact HcA.
-    destruct (args_run args ps Hpl fuel im ss s1 [] F vs sa Hs1 eq_refl HcA1 Ea) as [Hsa (n2 & s2 & p1 & E2 & Hs2 & Hpc2 & Hfr2 & Hst2 & Hbind)]. subst sa.
-    fold CA in Hpc2. fold kA in Hpc2. rewrite Hbind in He.
-    assert (Hpc2' : m_pc s2 = m_pc s + 1 + kA) by (rewrite Hpc2; reflexivity).
-    (* JSR *)
-    destruct (Hload f d Hf) as (addr & rr & Hfind & Hbc).
-    apply code_at_app in Hbc. destruct Hbc as [Hbcode Hbend]. cbn [code_at] in Hbend. destruct Hbend as [Hfend _].
-    set (ret := m_pc s2 + 1).
-    set (s3 := with_pc (with_frames s2 (FCall p1 true (Some ret) :: F)) addr).
-    assert (E3 : esteps 1 im s2 = Some (s3, [])).
-    { assert (Hfj' : fetch im (m_pc s2) = Some (I1 OC_JSR (PStr f))) by (rewrite Hpc2'; exact Hfj).
-      apply (estep1 im s2 _ _ _ Hfj'). cbn [Machine.exec i_op i_p0 I1]. rewrite Hfr2, (not_builtin f Hb), Hfind. reflexivity. }
-    set (ssb := s_with_locals ss (Some p1)) in *.
-    assert (Hs3 : sim ssb s3).
-    { destruct Hs2 as [Hr Hfu Hg Hv Hw Hu Hdf]. constructor; cbn [s3 ssb with_pc with_frames with_vars s_with_locals m_regs m_globals m_frames m_world m_unnamed s_regs s_globals s_locals s_world vars_of settled]; try assumption; reflexivity. }
-    assert (Hct3 : call_tail (m_frames s3) = Some (ret, F)) by reflexivity.
-    assert (Hd3 : in_depth_ok true s3) by (intros _; exact I).
-    assert (Hin3 : in_loop_ok false None) by (intros H; discriminate).
-    assert (Hir3 : in_ret_ok true (m_frames s3)) by (intros _; exists ret, F; exact Hct3).
-    assert (Hbcode3 : code_at im (m_pc s3) (c_stmt rt mt false None (rd_body d))) by exact Hbcode.
-    assert (Hfe' : fetch im ret = Some (I0 OC_END_CTX)).
-    { unfold ret. rewrite Hpc2'. replace (m_pc s + 1 + kA + 1) with (m_pc s + 1 + kA + Z.of_nat 1) by lia. exact Hfe. }
-    assert (Hlen : zlength ([I0 OC_CTX] ++ CA ++ [I1 OC_JSR (PStr f); I0 OC_END_CTX]) = 1 + kA + 2).
-    { unfold zlength. rewrite !app_length, !Nat2Z.inj_add. cbn [length]. unfold kA, zlength. lia. }
-    assert (Hstk : m_stack s3 = m_stack s) by exact Hst2.
-    assert (E13 : esteps (1 + (n2 + 1)) im s = Some (s3, [] ++ ([] ++ []))) by (eapply esteps_app; [exact E1|eapply esteps_app; [exact E2|exact E3]]).
-    destruct (Sem.exec rt mt fuel false ssb (rd_body d)) as [sgb sb|eb sb|sb] eqn:Eb; try discriminate.
-    set (sfin := s_with_locals sb (s_locals ss)) in *.
-    assert (Hss' : ss' = sfin /\ sig = SigNormal) by (destruct sgb; injection He as H1 H2; split; congruence).
-    destruct Hss' as [-> ->].
-    left. split; [reflexivity|]. rewrite Hlen.
-    destruct (proj1 (IHfuel fuel ltac:(lia)) false true (rd_body d) (Hbodies f d Hf) None im ssb s3 sgb sb fuel (le_n _) Hload Hin3 Hir3 Hd3 Hs3 Hbcode3 Eb)
-      as [[Hsgb (n4 & s4 & e4 & E4 & Hs4 & Hpc4 & Hst4 & Ht4)]|[[Hsgb (a' & Ha' & _)]|[_ [v [Hsgb (ret' & F' & Hct' & n4 & s4 & e4 & E4 & Hr4 & Hpc4 & Hfr4 & Hst4 & Ht4)]]]]].
-    + (* the body runs into END f: back to the END_CTX of the call *)
-      destruct (fr_eq_facts s4 s3 Hst4) as [Hsk4 [Hct4 [Hdp4 Hrs4]]].
-      assert (Hrs4' : ret_stack (m_frames s4) (m_stack s4) = m_stack s4) by (rewrite Hrs4, Hsk4; reflexivity).
-      rewrite Hct3 in Hct4.
-      set (s5 := with_pc (with_stack (with_frames s4 F) (m_stack s4)) ret).
-      assert (E5 : esteps 1 im s4 = Some (s5, [])).
-      { assert (Hfend' : fetch im (m_pc s4) = Some (I1 OC_END (PStr f))) by (rewrite Hpc4; exact Hfend).
-        apply (estep1 im s4 _ _ _ Hfend'). cbn [Machine.exec i_op i_p0 I1]. rewrite (do_return_steps s4 ret F Hct4), Hrs4'. reflexivity. }
-      set (s6 := advance s5).
-      assert (E6 : esteps 1 im s5 = Some (s6, [])) by (apply (estep1 im s5 _ _ _ Hfe'); reflexivity).
-      exists ((1 + (n2 + 1)) + (n4 + (1 + 1)))%nat, s6, (([] ++ ([] ++ [])) ++ (e4 ++ ([] ++ []))).
-      split; [eapply esteps_app; [exact E13|eapply esteps_app; [exact E4|eapply esteps_app; [exact E5|exact E6]]]|].
-      split.
-      { destruct Hs4 as [Hr Hfu Hg Hv Hse Hw Hu Hdf]. destruct Hsim as [_ _ _ Hv0 Hst0 _ _ _].
-        constructor; cbn [s6 s5 sfin advance with_pc with_stack with_frames with_vars s_with_locals m_regs m_globals m_frames m_world m_unnamed s_regs s_globals s_locals s_world]; assumption. }
-      split; [change (m_pc s6) with (ret + 1); unfold ret; rewrite Hpc2'; lia|].
-      split; [change (m_stack s6, fr s6) with (m_stack s4, erase F); rewrite Hsk4, Hstk; reflexivity|].
-      cbn [app]. rewrite !app_nil_r. exact Ht4.
-    + discriminate.
-    + (* the body returns: the machine is behind the END_CTX already *)
-      rewrite Hct3 in Hct'. injection Hct' as Hret' HF'. subst ret' F'.
-      exists ((1 + (n2 + 1)) + n4)%nat, s4, (([] ++ ([] ++ [])) ++ e4).
-      split; [eapply esteps_app; [exact E13|exact E4]|].
-      destruct Hr4 as (Hr & Hfu & Hg & Hw & Hu & Hdf).
-      split.
-      { destruct Hsim as [_ _ _ Hv0 Hst0 _ _ _].
-        constructor; cbn [sfin s_with_locals s_regs s_globals s_locals s_world]; try assumption; rewrite Hfr4; assumption. }
-      split; [rewrite Hpc4; unfold ret; rewrite Hpc2'; lia|].
-      split; [unfold fr; rewrite Hfr4, Hst4, Hstk; reflexivity|].
-      cbn [app]. exact Ht4.
+    intros inl inr f args b d Hb Hf Hpl after im ss s sig ss' fuel Hle Hload _ _ _ Hsim Hc He.
+    destruct fuel as [|[|fuel]]; try discriminate. rewrite exec_call in He. rewrite (c_callB after f args b d Hb Hf) in *.
+    destruct (call rt mt (S fuel) false ss f args) as [x s1|e s1|s1] eqn:Ecall; cbn [sbind] in He; try discriminate. injection He as Hsig Hss. subst sig ss'.
+    destruct (call_runs fuel (Hbs fuel ltac:(lia)) f args d Hb Hf Hpl im ss s x s1 Hload Hsim Hc Ecall) as (n & s' & evs & E & Hs' & Hpc & Hsf & Ht & _).
+    left. split; [reflexivity|]. exists n, s', evs. split; [exact E|]. split; [exact Hs'|]. split; [exact Hpc|]. split; [exact Hsf|exact Ht].
+  - (* a call whose value is assigned, put into a register or printed: the call, then the value is taken from RESULT *)
+    intros inl inr u f args d Hb Hf Hpl Hmr Hok after im ss s sig ss' fuel Hle Hload _ _ _ Hsim Hc He.
+    destruct fuel as [|f1]; [discriminate|]. rewrite exec_use in He. destruct f1 as [|f2]; [discriminate|]. rewrite eval_rval_S in He.
+    destruct f2 as [|fuel]; [discriminate|]. rewrite (c_use after u f args d Hb Hf Hok) in *.
+    destruct (call rt mt (S fuel) false ss f args) as [x s1|e s1|s1] eqn:Ecall; cbn [sbind] in He; try discriminate. injection He as Hsig Hss. subst sig ss'.
+    apply code_at_app in Hc. destruct Hc as [Hcc Hct].
+    destruct (call_runs fuel (Hbs fuel ltac:(lia)) f args d Hb Hf Hpl im ss s x s1 Hload Hsim Hcc Ecall) as (n & s' & evs & E & Hs' & Hpc & Hsf & Ht & Hres).
+    assert (Hct' : code_at im (m_pc s') (use_tail u)) by (rewrite Hpc; exact Hct).
+    destruct (use_tail_runs u im s1 s' x Hok Hs' (Hres Hmr) Hct') as (n2 & s2 & e2 & E2 & Hs2 & Hpc2 & Hsf2 & Ht2).
+    left. split; [reflexivity|]. exists (n + n2)%nat, s2, (evs ++ e2). split; [eapply esteps_app; eassumption|]. split; [exact Hs2|].
+    split; [rewrite Hpc2, Hpc; unfold zlength; rewrite app_length, Nat2Z.inj_add; lia|]. split; [rewrite Hsf2; exact Hsf|]. rewrite Ht2, Ht, app_assoc. reflexivity.
+  - (* return [f ...]: the call, then RETURN with the value still in RESULT *)
+    intros inl f args d Hb Hf Hpl Hmr after im ss s sig ss' fuel Hle Hload _ Hir _ Hsim Hc He.
+    destruct fuel as [|f1]; [discriminate|]. rewrite exec_return in He. destruct f1 as [|f2]; [discriminate|]. rewrite eval_rval_S in He.
+    destruct f2 as [|fuel]; [discriminate|]. rewrite (c_retcall after f args d Hb Hf) in *.
+    destruct (call rt mt (S fuel) false ss f args) as [x s1|e s1|s1] eqn:Ecall; cbn [sbind] in He; try discriminate. injection He as Hsig Hss. subst sig ss'.
+    apply code_at_app in Hc. destruct Hc as [Hcc Hr]. cbn [code_at] in Hr. destruct Hr as [Hfr _].
+    destruct (call_runs fuel (Hbs fuel ltac:(lia)) f args d Hb Hf Hpl im ss s x s1 Hload Hsim Hcc Ecall) as (n & s' & evs & E & Hs' & Hpc & Hsf & Ht & Hres).
+    destruct (fr_eq_facts s' s Hsf) as [Hsk1 [Hct1 [_ Hrs1]]].
+    destruct (Hir eq_refl) as (ret & F & Hct).
+    assert (Hct' : call_tail (m_frames s') = Some (ret, F)) by (rewrite Hct1; exact Hct).
+    set (s2 := advance (with_pc (with_stack (with_frames s' F) (ret_stack (m_frames s') (m_stack s'))) ret)).
+    assert (E2 : esteps 1 im s' = Some (s2, [])).
+    { assert (Hfr' : fetch im (m_pc s') = Some (I0 OC_RETURN)) by (rewrite Hpc; exact Hfr).
+      apply (estep1 im s' _ _ _ Hfr'). cbn [Machine.exec i_op I0]. rewrite (do_return_steps s' ret F Hct'). reflexivity. }
+    right. right. split; [reflexivity|]. exists x. split; [reflexivity|]. exists ret, F. split; [exact Hct|].
+    exists (n + 1)%nat, s2, (evs ++ []). split; [eapply esteps_app; eassumption|].
+    split; [split; [destruct Hs' as [Hr1 Hf1 Hg1 Hv1 Hst1 Hw1 Hu1 Hdf1]; repeat split; assumption|exact (Hres Hmr)]|].
+    split; [reflexivity|]. split; [reflexivity|]. split; [exact Hrs1|]. rewrite app_nil_r. exact Ht.
   - (* if without else *)
     intros inl inr c a Hc Ha IHa after im ss s sig ss' fuel Hle Hload Hin Hir Hd Hsim Hcode He.
     destruct fuel as [|fuel]; [discriminate|]. rewrite exec_if in He. rewrite c_if1_after in *.
@@ -591,7 +687,7 @@ Proof.
               iterate rt mt f false ss1 (Some c) None None None a = ROk sg ssx ->
               (sg = SigNormal /\ exists n sy evs, esteps n im sx = Some (sy, evs) /\ sim ssx sy /\ m_pc sy = P0 + (kT + kB + 4) /\
                                            (m_stack sy, fr sy) = (m_stack s, fr s) /\ rev (s_trace ssx) = rev (s_trace ss1) ++ evs) \/
-              (inr = true /\ exists v, sg = SigReturn v /\ returned im ss1 sx ssx)).
+              (inr = true /\ exists v, sg = SigReturn v /\ returned im ss1 sx ssx v)).
     { induction f as [|f IHf]; intros ss1 sx sg ssx lv r Hlef Hsx Hpcx Hfrx Herx Hstx Hit; [discriminate|].
       assert (Hctx : call_tail (m_frames sx) = call_tail (m_frames s)) by (rewrite Hfrx; cbn [call_tail]; apply call_tail_fr_eq; exact Herx).
       assert (Hdx : in_depth_ok inr sx).
@@ -702,7 +798,7 @@ Proof.
               iterate rt mt f false ss1 None (Some c0) None None a = ROk sg ssx ->
               (sg = SigNormal /\ exists n sy evs, esteps n im sx = Some (sy, evs) /\ sim ssx sy /\ m_pc sy = P0 + (kN + kB + 12) /\
                                            (m_stack sy, fr sy) = (m_stack s, fr s) /\ rev (s_trace ssx) = rev (s_trace ss1) ++ evs) \/
-              (inr = true /\ exists v, sg = SigReturn v /\ returned im ss1 sx ssx)).
+              (inr = true /\ exists v, sg = SigReturn v /\ returned im ss1 sx ssx v)).
     { induction f as [|f IHf]; intros ss1 sx sg ssx lv c0 r Hlef Hsx Hpcx Hfrx Herx Hlvx Hstx Hit; [discriminate|].
       assert (Hctx : call_tail (m_frames sx) = call_tail (m_frames s)) by (rewrite Hfrx; cbn [call_tail]; apply call_tail_fr_eq; exact Herx).
       assert (Hdx : in_depth_ok inr sx).
@@ -815,7 +911,7 @@ Proof.
               iterate rt mt f false ss1 None None None None a = ROk sg ssx ->
               (sg = SigNormal /\ exists n sy evs, esteps n im sx = Some (sy, evs) /\ sim ssx sy /\ m_pc sy = P0 + (1 + kB + 4) /\
                                            (m_stack sy, fr sy) = (m_stack s, fr s) /\ rev (s_trace ssx) = rev (s_trace ss1) ++ evs) \/
-              (inr = true /\ exists v, sg = SigReturn v /\ returned im ss1 sx ssx)).
+              (inr = true /\ exists v, sg = SigReturn v /\ returned im ss1 sx ssx v)).
     { induction f as [|f IHf]; intros ss1 sx sg ssx lv r Hlef Hsx Hpcx Hfrx Herx Hstx Hit; [discriminate|].
       assert (Hctx : call_tail (m_frames sx) = call_tail (m_frames s)) by (rewrite Hfrx; cbn [call_tail]; apply call_tail_fr_eq; exact Herx).
       assert (Hdx : in_depth_ok inr sx).
@@ -913,7 +1009,7 @@ Proof.
               iterate rt mt f false ss1 None (Some c0) (Some (v, incr)) None a = ROk sg ssx ->
               (sg = SigNormal /\ exists n sy evs, esteps n im sx = Some (sy, evs) /\ sim ssx sy /\ m_pc sy = P0 + (kN + kB + 16) /\
                                            (m_stack sy, fr sy) = (m_stack s, fr s) /\ rev (s_trace ssx) = rev (s_trace ss1) ++ evs) \/
-              (inr = true /\ exists w, sg = SigReturn w /\ returned im ss1 sx ssx)).
+              (inr = true /\ exists w, sg = SigReturn w /\ returned im ss1 sx ssx w)).
     { induction f as [|f IHf]; intros ss1 sx sg ssx lv c0 r Hlef Hsx Hpcx Hfrx Herx Hlvx HlvI Hstx Hit; [discriminate|].
       assert (Hctx : call_tail (m_frames sx) = call_tail (m_frames s)) by (rewrite Hfrx; cbn [call_tail]; apply call_tail_fr_eq; exact Herx).
       assert (Hdx : in_depth_ok inr sx).
@@ -1045,7 +1141,7 @@ Proof.
               iterate rt mt f false ss1 None (Some (VInt (Z.of_nat (length names)))) idx (Some (x, names)) a = ROk sg ssx ->
               (sg = SigNormal /\ exists n sy evs, esteps n im sx = Some (sy, evs) /\ sim ssx sy /\ m_pc sy = P0 + (kN + kB + K + 9) /\
                                           (m_stack sy, fr sy) = (m_stack s, fr s) /\ rev (s_trace ssx) = rev (s_trace ss1) ++ evs) \/
-              (inr = true /\ exists w, sg = SigReturn w /\ returned im ss1 sx ssx)).
+              (inr = true /\ exists w, sg = SigReturn w /\ returned im ss1 sx ssx w)).
     { induction f as [|f IHf]; intros ss1 sx sg ssx lv names r Hlef Hsx Hpcx Hfrx Herx Hlvx Hidx Hstx Hit; [discriminate|].
       rewrite iterate_lights in Hit.
       set (c0 := VInt (Z.of_nat (length names))) in *.
@@ -1316,10 +1412,44 @@ Proof.
   exact Hto.
 Qed.
 
+(* the value of a call, where a statement takes it directly: `assign y [f ...]`, `hue [f ...]`, `print [f ...]`, `println [f ...]` *)
+Theorem call_value_simulation :
+  forall rt mt, bodies_ok rt mt -> forall u f args d, builtin_params f builtin_table = None -> find_rdef rt f = Some d ->
+  plain_args mt args (rd_params d) = true -> must_return (rd_body d) = true -> use_ok u = true ->
+  forall after im ss s sig ss' fuel, routines_loaded rt mt im -> sim ss s ->
+  code_at im (m_pc s) (c_stmt rt mt false after (use_stmt u (RCall f args))) ->
+  Sem.exec rt mt fuel false ss (use_stmt u (RCall f args)) = ROk sig ss' ->
+  sig = SigNormal /\
+  exists n s' evs, esteps n im s = Some (s', evs) /\ sim ss' s' /\ m_pc s' = m_pc s + zlength (c_stmt rt mt false after (use_stmt u (RCall f args))) /\
+                   (m_stack s', fr s') = (m_stack s, fr s) /\ rev (s_trace ss') = rev (s_trace ss) ++ evs.
+Proof.
+  intros rt mt Hbodies u f args d Hb Hf Hpl Hmr Hok after im ss s sig ss' fuel Hload Hsim Hc He.
+  assert (Hd : in_depth_ok false s) by (intros H; discriminate).
+  assert (Hsig : sig = SigNormal).
+  { destruct fuel as [|fuel]; [discriminate|]. rewrite exec_use in He.
+    destruct (eval_rval rt mt fuel false ss (RCall f args)) as [v s1|e s1|s1]; cbn [sbind] in He; try discriminate. injection He as <- _. reflexivity. }
+  subst sig. split; [reflexivity|].
+  assert (Hir : in_ret_ok false (m_frames s)) by (intros H; discriminate).
+  assert (Hin : in_loop_ok false after) by (intros H; discriminate).
+  destruct (proj1 (simpleB_simulation rt mt Hbodies) false false _ (B_calluse rt mt false false u f args d Hb Hf Hpl Hmr Hok) after im ss s SigNormal ss' fuel Hload
+              Hin Hir Hd Hsim Hc He) as [[_ Hto]|[[H _]|[_ [v [H _]]]]]; try discriminate.
+  exact Hto.
+Qed.
+
 (* a boolean test for the covered statements (sound for SimpleB / SimpleBL) *)
 Section CheckB.
 Variable rt : rtable.
 Variable mt : mtable.
+(* a call in the place of a value: the routine exists, takes ordinary values and always leaves through a return *)
+Definition callval_b (v : rval) : bool :=
+  match v with
+  | RCall g args =>
+      match builtin_params g builtin_table, find_rdef rt g with
+      | None, Some d => plain_args mt args (rd_params d) && must_return (rd_body d)
+      | _, _ => false
+      end
+  | _ => false
+  end.
 Fixpoint simpleB_b (fuel : nat) (inl inr : bool) (st : stmt) : bool :=
   match fuel with
   | O => false
@@ -1327,7 +1457,9 @@ Fixpoint simpleB_b (fuel : nat) (inl inr : bool) (st : stmt) : bool :=
       simple_atom mt st ||
       match st with
       | SBreak => inl
-      | SReturn (Some v) => inr && plain_rval mt v
+      | SAssign _ v | SPrint (Some v) | SPrintln (Some v) => callval_b v
+      | SReg r v => script_reg r && callval_b v
+      | SReturn (Some v) => inr && (plain_rval mt v || callval_b v)
       | SReturn None => inr
       | SCall g args _ =>
           match builtin_params g builtin_table, find_rdef rt g with
@@ -1355,13 +1487,25 @@ Lemma simpleB_b_sound fuel : forall inl inr st, simpleB_b fuel inl inr st = true
 Proof.
   induction fuel as [|f IH]; intros inl inr st H; [discriminate|]. cbn [simpleB_b] in H.
   destruct (simple_atom mt st) eqn:Ea; [apply B_simple; apply S_atom; exact Ea|]. cbn [orb] in H.
+  assert (Hcv : forall v, callval_b v = true -> exists g args d, v = RCall g args /\ builtin_params g builtin_table = None /\ find_rdef rt g = Some d /\
+                                                   plain_args mt args (rd_params d) = true /\ must_return (rd_body d) = true).
+  { intros v Hv. destruct v as [l|l|m|m|y|r|e|g args]; try discriminate. cbn [callval_b] in Hv.
+    destruct (builtin_params g builtin_table) eqn:Eb; [discriminate|]. destruct (find_rdef rt g) as [d|] eqn:Ef; [|discriminate].
+    apply andb_true_iff in Hv. destruct Hv as [Hp Hm]. exists g, args, d. repeat split; assumption. }
   destruct st; try discriminate.
+  - (* register setting with the value of a call *)
+    apply andb_true_iff in H. destruct H as [Hr Hv]. destruct (Hcv v Hv) as (g & args & d & -> & Hb & Hf & Hp & Hm).
+    exact (B_calluse rt mt inl inr (UReg r) g args d Hb Hf Hp Hm Hr).
+  - (* assignment of the value of a call *)
+    destruct (Hcv v H) as (g & args & d & -> & Hb & Hf & Hp & Hm).
+    exact (B_calluse rt mt inl inr (UAssign x) g args d Hb Hf Hp Hm eq_refl).
   - (* call *)
     destruct (builtin_params f0 builtin_table) eqn:Eb; [discriminate|]. destruct (find_rdef rt f0) as [d|] eqn:Ef; [|discriminate].
     exact (B_call rt mt inl inr f0 args bracketed d Eb Ef H).
   - (* return *)
     destruct v as [v|].
-    + apply andb_true_iff in H. destruct H as [Hr Hv]. subst inr. apply B_return. exact Hv.
+    + apply andb_true_iff in H. destruct H as [Hr Hv]. subst inr. apply orb_true_iff in Hv. destruct Hv as [Hv|Hv]; [apply B_return; exact Hv|].
+      destruct (Hcv v Hv) as (g & args & d & -> & Hb & Hf & Hp & Hm). exact (B_callret rt mt inl g args d Hb Hf Hp Hm).
     + subst inr. apply B_return0.
   - destruct s2 as [b|].
     + apply andb_true_iff in H. destruct H as [H Hb]. apply andb_true_iff in H. destruct H as [Hc Ha].
@@ -1384,6 +1528,11 @@ Proof.
     + apply andb_true_iff in H. destruct H as [H Ha]. apply andb_true_iff in H. destruct H as [Hs Hw].
       apply (B_lights rt mt inl inr _ _ _ _ _ (lin_form rt mt _ _ _ Hs Hw)). apply IH. exact Ha.
   - subst inl. apply B_break.
+  - (* print the value of a call *)
+    destruct v as [v|]; [|discriminate]. destruct (Hcv v H) as (g & args & d & -> & Hb & Hf & Hp & Hm).
+    exact (B_calluse rt mt inl inr (UPrint false) g args d Hb Hf Hp Hm eq_refl).
+  - destruct v as [v|]; [|discriminate]. destruct (Hcv v H) as (g & args & d & -> & Hb & Hf & Hp & Hm).
+    exact (B_calluse rt mt inl inr (UPrint true) g args d Hb Hf Hp Hm eq_refl).
   - apply B_block. clear Ea. induction ss as [|x r IHr]; [constructor|]. cbn [forallb] in H. apply andb_true_iff in H. destruct H as [Hx Hr].
     constructor; [apply IH; exact Hx|apply IHr; exact Hr].
 Qed.
